@@ -24,8 +24,14 @@ class Unprintable(Exception):
     __repr__ = __str__
 
 
+def enable_unprintable():
+    """Checks whose statement covers 'whatever the user code raises' opt in: the family then also contains Unprintable."""
+    if Unprintable not in EXC_CLASSES:
+        EXC_CLASSES.append(Unprintable)
+
+
 if os.environ.get("VERIF_UNPRINTABLE") == "1":
-    EXC_CLASSES.append(Unprintable)
+    enable_unprintable()
 
 
 def make_exception(index, message="injected fault"):
